@@ -186,6 +186,13 @@ fn process_dir(
                 writeln!(&mut stderr(), "Error: {err}").unwrap();
             }
             Ok(entry) => {
+                // walkdir lowers min_depth to max_depth when it is larger, and reports
+                // broken symbolic links whatever their depth, so enforce the lower
+                // bound here as well.
+                if entry.depth() < config.min_depth {
+                    continue;
+                }
+
                 let mut matcher_io = matchers::MatcherIO::new(deps);
 
                 let new_dir = entry.path().parent().map(|x| x.to_path_buf());
